@@ -127,7 +127,7 @@ def declareCmd (f : Flav) (v : Ver) : Cmd := .declare ⟨f, p, v, some (dir f v)
 processes of one user -/
 def staleTagHistory : List WCmd :=
   [.run 0 (declareCmd L [49]) none, .run 0 (declareCmd L [50]) none,
-   .run 0 (.undeclare ⟨L, p, some [49], none, none, false, false⟩) none, .run 0 (declareCmd L [49]) none]
+   .run 0 (.undeclare ⟨L, p, some [49], none, none, false, false, false, none⟩) none, .run 0 (declareCmd L [49]) none]
 
 /-- **D1 (repaired).**  With the pinned `removeVersion` the cache answers "p 1 is current" after that history
 while no chain file exists; with the repair the two agree. -/
